@@ -1,0 +1,64 @@
+/*
+ * Observation hooks for the runtime monitors kept outside of this repository.
+ * Everything in this file is compiled only when APACHE_XALAN_C_VERIF is defined;
+ * without it the macros expand to nothing and no symbol is added to the library.
+ * The hooks add observability only, they never change behaviour.
+ */
+#if !defined(XALANVERIFPROBES_HEADER_GUARD_1357924680)
+#define XALANVERIFPROBES_HEADER_GUARD_1357924680
+
+#if defined(APACHE_XALAN_C_VERIF)
+
+enum XalanVerifSite
+{
+    XALAN_VERIF_SITE_NONE = 0,
+    // allocation sites (see xalan_verif_alloc_site)
+    XALAN_VERIF_SITE_LIST_HEAD = 1,
+    // counters / callbacks
+    XALAN_VERIF_SITE_MAX = 512
+};
+
+extern "C"
+{
+    // One relaxed atomic counter per site.
+    extern unsigned long    xalan_verif_counters[XALAN_VERIF_SITE_MAX];
+
+    // The site of the memory manager allocation in progress on this
+    // thread, or XALAN_VERIF_SITE_NONE.
+    extern __thread int     xalan_verif_alloc_site;
+
+    // Optional process-wide callback, called at every probe.
+    extern void             (*xalan_verif_probe_cb)(int     theSite);
+}
+
+#define XALAN_VERIF_PROBE(theSite) \
+    do \
+    { \
+        __atomic_fetch_add(&xalan_verif_counters[(theSite)], 1UL, __ATOMIC_RELAXED); \
+        if (xalan_verif_probe_cb != 0) xalan_verif_probe_cb((theSite)); \
+    } \
+    while(0)
+
+struct XalanVerifAllocSite
+{
+    XalanVerifAllocSite(int     theSite) :
+        m_saved(xalan_verif_alloc_site)
+    {
+        xalan_verif_alloc_site = theSite;
+    }
+
+    ~XalanVerifAllocSite()
+    {
+        xalan_verif_alloc_site = m_saved;
+    }
+
+    const int   m_saved;
+};
+
+#else
+
+#define XALAN_VERIF_PROBE(theSite)
+
+#endif
+
+#endif  // XALANVERIFPROBES_HEADER_GUARD_1357924680
